@@ -754,7 +754,10 @@ def _process_internal_events_without_default_matchers(
                         state=state,
                         flow_state=flow_state,
                         matching_scores=event.matching_scores,
-                        deactivate_flow=flow_state.activated > 0,
+                        # Stopping the reference instance of an activated flow gives the
+                        # activation up; a restarted instance that is stopped has ended like
+                        # any other instance (the flow is started again)
+                        deactivate_flow=_is_reference_activated_flow(state, flow_state),
                     )
                     assert flow_state.loop_id
                     handled_event_loops.add(flow_state.loop_id)
